@@ -16,12 +16,15 @@
 package main
 
 import (
+	"encoding/json"
 	"fmt"
 	"math"
 	"math/big"
 	"math/bits"
 	"os"
 	"sort"
+	"strconv"
+	"strings"
 	"sync"
 	"sync/atomic"
 	"time"
@@ -1161,6 +1164,46 @@ func floatNeighbourhood(L []uint64, S []uint64) []uint64 {
 	return s
 }
 
+// truncObservation: softfloat.Ftrunc64/Ftrunc32 are exported by the package but have no caller in GnoVM (no Gno
+// program can reach them) and truncation is not among the operations the property lists, so a mismatch here is
+// recorded as an out-of-scope observation in the evidence, NOT as a violation of C05.
+var truncObs = map[string]any{}
+
+func truncObservation(S64 []uint64, S32 []uint32) {
+	var bad64, bad32 int
+	min64, min32 := uint64(math.MaxUint64), uint32(math.MaxUint32)
+	for _, x := range S64 {
+		f := math.Float64frombits(x)
+		if g := gno.VerifFtrunc64(x); !same64(g, math.Float64bits(math.Trunc(f))) {
+			bad64++
+			if x < min64 {
+				min64 = x
+			}
+		}
+	}
+	for _, x := range S32 {
+		f := math.Float32frombits(x)
+		if g := gno.VerifFtrunc32(x); !same32(g, math.Float32bits(float32(math.Trunc(float64(f))))) {
+			bad32++
+			if x < min32 {
+				min32 = x
+			}
+		}
+	}
+	truncObs["Ftrunc64_checked"], truncObs["Ftrunc64_mismatches"] = len(S64), bad64
+	truncObs["Ftrunc32_checked"], truncObs["Ftrunc32_mismatches"] = len(S32), bad32
+	if bad64 > 0 {
+		truncObs["Ftrunc64_min_failing_input"] = fmt.Sprintf("%#x (%v) -> %v", min64, math.Float64frombits(min64), math.Float64frombits(gno.VerifFtrunc64(min64)))
+	}
+	if bad32 > 0 {
+		truncObs["Ftrunc32_min_failing_input"] = fmt.Sprintf("%#x (%v) -> %v", min32, math.Float32frombits(min32), math.Float32frombits(gno.VerifFtrunc32(min32)))
+	}
+	if bad64+bad32 > 0 {
+		fmt.Printf("NOTE (out of C05's scope, not a violation): softfloat.Ftrunc64/Ftrunc32 (no callers in GnoVM) disagree with math.Trunc on %d/%d and %d/%d structured inputs, e.g. Ftrunc64(-3) = %v\n",
+			bad64, len(S64), bad32, len(S32), math.Float64frombits(gno.VerifFtrunc64(math.Float64bits(-3))))
+	}
+}
+
 // ---------------------------------------------------------------------------------------------
 
 var phaseStart = time.Now()
@@ -1172,6 +1215,10 @@ func phase(name string) {
 
 func main() {
 	r = vk.New("exploration")
+	if r.ReplayIn != "" {
+		replay()
+		return
+	}
 	if os.Getenv("C05_BENCH") != "" {
 		bench()
 		return
@@ -1239,6 +1286,7 @@ func main() {
 	sweepDone := sweepChunksDone.Load()
 	r.Sample(map[string]any{"sweep32_chunks_done": sweepDone, "of": 1 << 14, "ops_per_input": map[bool]int{false: 9, true: 14}[r.Thorough()]})
 
+	truncObservation(S64, S32)
 	reportTrackers()
 	r.Assumptions = []string{
 		"native amd64 SSE2 scalar arithmetic and conversions are IEEE-754 round-to-nearest-even (first reference)",
@@ -1248,7 +1296,7 @@ func main() {
 		"binary operations at 64 bits (and at 32 bits beyond S32xS32 + tie families) are covered on a structured operand set, not all 2^128 / 2^64 pairs",
 	}
 	r.Finish("U: all 2^32 float32/int32/uint32 bit patterns x 9 (quick) / 14 (thorough) unary ops/conversions; B: full product SxS (S = exponents x 9 mantissa patterns x sign) x {add,sub,mul,div,eq,lt,le,gt,ge[,cmp]} at 32 and 64 bits vs native; T: constructed float32 tie families; I: integer lattice and its float neighbourhood through all int<->float conversions; R: the same ops vs math/big on sub-products. distinct = operand rows (a of each SxS), sweep chunks, lattice integers, in-range floats",
-		true, map[string]any{"sweep32_inputs": sweepDone << 18, "S32": len(S32), "S64": len(S64), "int_lattice": len(L)})
+		true, map[string]any{"sweep32_inputs": sweepDone << 18, "S32": len(S32), "S64": len(S64), "int_lattice": len(L), "out_of_scope_observations": truncObs})
 }
 
 var sink uint64
@@ -1270,9 +1318,118 @@ func bench() {
 	run("F32toint32", func(x uint32) uint64 { return uint64(gno.VerifF32toint32(x)) })
 	run("F32toint64", func(x uint32) uint64 { return uint64(gno.VerifF32toint64(x)) })
 	run("F32touint64", func(x uint32) uint64 { return gno.VerifF32touint64(x) })
-	run("Feq32", func(x uint32) uint64 { if gno.VerifFeq32(x, x) { return 1 }; return 0 })
+	run("Feq32", func(x uint32) uint64 {
+		if gno.VerifFeq32(x, x) {
+			return 1
+		}
+		return 0
+	})
 	run("Fint32to32", func(x uint32) uint64 { return uint64(gno.VerifFint32to32(int32(x))) })
 	run("Fint32to64", func(x uint32) uint64 { return gno.VerifFint32to64(int32(x)) })
 	run("Fuint64to32", func(x uint32) uint64 { return uint64(gno.VerifFuint64to32(uint64(x))) })
 	run("Fuint64to64", func(x uint32) uint64 { return gno.VerifFuint64to64(uint64(x)) })
+}
+
+// replay re-evaluates the single (op, a, b) of a replay artefact against the native reference.
+func replay() {
+	raw, err := os.ReadFile(r.ReplayIn)
+	if err != nil {
+		r.HarnessError("replay: %v", err)
+	}
+	var art struct {
+		Detail struct{ Op, A, B string } `json:"detail"`
+	}
+	if err := json.Unmarshal(raw, &art); err != nil {
+		r.HarnessError("replay: %v", err)
+	}
+	op := art.Detail.Op
+	if i := strings.IndexAny(op, "/("); i >= 0 {
+		op = op[:i]
+	}
+	a, _ := strconv.ParseUint(art.Detail.A, 0, 64)
+	b, _ := strconv.ParseUint(art.Detail.B, 0, 64)
+	f64, g64 := math.Float64frombits(a), math.Float64frombits(b)
+	f32, g32 := math.Float32frombits(uint32(a)), math.Float32frombits(uint32(b))
+	b2u := func(v bool) uint64 {
+		if v {
+			return 1
+		}
+		return 0
+	}
+	type pair struct{ got, want uint64 }
+	tab := map[string]func() pair{
+		"Fadd64": func() pair { return pair{gno.VerifFadd64(a, b), math.Float64bits(f64 + g64)} },
+		"Fsub64": func() pair { return pair{gno.VerifFsub64(a, b), math.Float64bits(f64 - g64)} },
+		"Fmul64": func() pair { return pair{gno.VerifFmul64(a, b), math.Float64bits(f64 * g64)} },
+		"Fdiv64": func() pair { return pair{gno.VerifFdiv64(a, b), math.Float64bits(f64 / g64)} },
+		"Feq64":  func() pair { return pair{b2u(gno.VerifFeq64(a, b)), b2u(f64 == g64)} },
+		"Flt64":  func() pair { return pair{b2u(gno.VerifFlt64(a, b)), b2u(f64 < g64)} },
+		"Fle64":  func() pair { return pair{b2u(gno.VerifFle64(a, b)), b2u(f64 <= g64)} },
+		"Fgt64":  func() pair { return pair{b2u(gno.VerifFgt64(a, b)), b2u(f64 > g64)} },
+		"Fge64":  func() pair { return pair{b2u(gno.VerifFge64(a, b)), b2u(f64 >= g64)} },
+		"Fcmp64": func() pair {
+			c, _ := gno.VerifFcmp64(a, b)
+			w := 0
+			if f64 < g64 {
+				w = -1
+			} else if f64 > g64 {
+				w = 1
+			}
+			return pair{uint64(int64(sgn(c))), uint64(int64(w))}
+		},
+		"Fadd32": func() pair {
+			return pair{uint64(gno.VerifFadd32(uint32(a), uint32(b))), uint64(math.Float32bits(f32 + g32))}
+		},
+		"Fsub32": func() pair {
+			return pair{uint64(gno.VerifFsub32(uint32(a), uint32(b))), uint64(math.Float32bits(f32 - g32))}
+		},
+		"Fmul32": func() pair {
+			return pair{uint64(gno.VerifFmul32(uint32(a), uint32(b))), uint64(math.Float32bits(f32 * g32))}
+		},
+		"Fdiv32": func() pair {
+			return pair{uint64(gno.VerifFdiv32(uint32(a), uint32(b))), uint64(math.Float32bits(f32 / g32))}
+		},
+		"Feq32":       func() pair { return pair{b2u(gno.VerifFeq32(uint32(a), uint32(b))), b2u(f32 == g32)} },
+		"Flt32":       func() pair { return pair{b2u(gno.VerifFlt32(uint32(a), uint32(b))), b2u(f32 < g32)} },
+		"Fle32":       func() pair { return pair{b2u(gno.VerifFle32(uint32(a), uint32(b))), b2u(f32 <= g32)} },
+		"Fgt32":       func() pair { return pair{b2u(gno.VerifFgt32(uint32(a), uint32(b))), b2u(f32 > g32)} },
+		"Fge32":       func() pair { return pair{b2u(gno.VerifFge32(uint32(a), uint32(b))), b2u(f32 >= g32)} },
+		"Fneg32":      func() pair { return pair{uint64(gno.VerifFneg32(uint32(a))), uint64(math.Float32bits(-f32))} },
+		"F32to64":     func() pair { return pair{gno.VerifF32to64(uint32(a)), math.Float64bits(float64(f32))} },
+		"F64to32":     func() pair { return pair{uint64(gno.VerifF64to32(a)), uint64(math.Float32bits(float32(f64)))} },
+		"F32toint32":  func() pair { return pair{uint64(uint32(gno.VerifF32toint32(uint32(a)))), uint64(uint32(int32(f32)))} },
+		"F32toint64":  func() pair { return pair{uint64(gno.VerifF32toint64(uint32(a))), uint64(int64(f32))} },
+		"F32touint64": func() pair { return pair{gno.VerifF32touint64(uint32(a)), uint64(f32)} },
+		"F64toint32":  func() pair { return pair{uint64(uint32(gno.VerifF64toint32(a))), uint64(uint32(int32(f64)))} },
+		"F64toint64":  func() pair { return pair{uint64(gno.VerifF64toint64(a)), uint64(int64(f64))} },
+		"F64toint":    func() pair { v, _ := gno.VerifF64toint(a); return pair{uint64(v), uint64(int64(f64))} },
+		"F64touint64": func() pair { return pair{gno.VerifF64touint64(a), uint64(f64)} },
+		"Fint32to32": func() pair {
+			return pair{uint64(gno.VerifFint32to32(int32(a))), uint64(math.Float32bits(float32(int32(a))))}
+		},
+		"Fint32to64": func() pair { return pair{gno.VerifFint32to64(int32(a)), math.Float64bits(float64(int32(a)))} },
+		"Fint64to32": func() pair {
+			return pair{uint64(gno.VerifFint64to32(int64(a))), uint64(math.Float32bits(float32(int64(a))))}
+		},
+		"Fint64to64": func() pair { return pair{gno.VerifFint64to64(int64(a)), math.Float64bits(float64(int64(a)))} },
+		"Fintto32": func() pair {
+			return pair{uint64(gno.VerifFintto32(int64(a))), uint64(math.Float32bits(float32(int64(a))))}
+		},
+		"Fintto64":    func() pair { return pair{gno.VerifFintto64(int64(a)), math.Float64bits(float64(int64(a)))} },
+		"Fuint64to32": func() pair { return pair{uint64(gno.VerifFuint64to32(a)), uint64(math.Float32bits(float32(a)))} },
+		"Fuint64to64": func() pair { return pair{gno.VerifFuint64to64(a), math.Float64bits(float64(a))} },
+	}
+	f := tab[op]
+	if f == nil {
+		r.HarnessError("replay: unknown op %q", art.Detail.Op)
+	}
+	p := f()
+	ok := p.got == p.want || (strings.HasSuffix(op, "64") && isNaN64(p.got) && isNaN64(p.want)) || (strings.HasSuffix(op, "32") && isNaN32(uint32(p.got)) && isNaN32(uint32(p.want)))
+	fmt.Printf("replay %s(%#x,%#x): softfloat=%#x native=%#x\n", op, a, b, p.got, p.want)
+	if !ok {
+		fmt.Printf("VIOLATION property=C05 replay=%s\n", r.ReplayIn)
+		os.Exit(1)
+	}
+	fmt.Println("replay: results agree on this tree")
+	os.Exit(0)
 }
